@@ -284,6 +284,10 @@ func (e *Engine) RunContracts(pc *PropertyCheck, timeout time.Duration, maxPaths
 	}
 	for k := range usedTrusted {
 		for _, ct := range e.Specs.Contracts {
+			if ct.FrameOnly && ct.PkgPath+" "+ct.Key == k {
+				e.frameOnlyObligation(pc, ct)
+				continue
+			}
 			if ct.Trusted && !ct.HavocOnly && ct.PkgPath+" "+ct.Key == k {
 				why := "trusted contract used"
 				if ct.Derived != "" {
@@ -714,3 +718,41 @@ func relFiles(fs []string, root string) []string {
 }
 
 var _ = smt.True
+
+// frameOnlyObligation: the declared module-level modifies clause of a frame-only contract
+// must cover the inferred may-write set of the function.
+func (e *Engine) frameOnlyObligation(pc *PropertyCheck, ct *sym.Contract) {
+	name := shortPath(ct.PkgPath) + "." + ct.Key + "/frame-inferred"
+	if ct.Fn == nil {
+		pc.Outcomes = append(pc.Outcomes, &Outcome{Name: name, Status: "undecided", Kind: "scan", Detail: "function not found"})
+		return
+	}
+	declared := map[string]bool{}
+	world := false
+	for _, m := range ct.Modifies {
+		m = strings.TrimSpace(m)
+		switch {
+		case m == "world":
+			world = true
+		case m == "bank":
+			declared["bank"] = true
+		case strings.HasPrefix(m, "module:"):
+			declared["store:"+strings.TrimPrefix(m, "module:")] = true
+		}
+	}
+	var missing []string
+	eff := e.Frames().MayWrite(ct.Fn)
+	if !world {
+		for _, x := range eff {
+			if !declared[x] {
+				missing = append(missing, x)
+			}
+		}
+	}
+	o := &Outcome{Name: name, Func: shortPath(ct.PkgPath) + "." + ct.Key, Status: "discharged", Kind: "scan", Detail: "inferred may-write set " + fmt.Sprint(eff) + " is covered by the modifies clause"}
+	if len(missing) > 0 {
+		o.Status = "failed"
+		o.Detail = "the function may write " + fmt.Sprint(missing) + " (call-graph inference), which its modifies clause does not list"
+	}
+	pc.Outcomes = append(pc.Outcomes, o)
+}
